@@ -68,6 +68,9 @@ pub enum Op {
     FlushLeveled { w: Wm, p: u8 },
     /// an ingestion that is written to and then dropped without finish()
     IngestAbandon { items: Vec<(u8, IKind)> },
+    /// put / delete with a wide key index (bulk histories)
+    PutIdx { k: u32 },
+    DelIdx { k: u32 },
     /// several ops as one step (a workload loop such as write; flush; compact)
     Seq { ops: Vec<Op> },
     Rotate,
@@ -111,6 +114,8 @@ impl Op {
             | Op::Batch { .. }
             | Op::MultiPut { .. }
             | Op::MultiDel { .. }
+            | Op::PutIdx { .. }
+            | Op::DelIdx { .. }
             | Op::PutF { .. }
             | Op::DelF { .. }
             | Op::IngestAbandon { .. }
@@ -134,6 +139,8 @@ impl Op {
             Op::DelF { .. } => "DelF",
             Op::FlushLeveled { .. } => "FlushLeveled",
             Op::IngestAbandon { .. } => "IngestAbandon",
+            Op::PutIdx { .. } => "PutIdx",
+            Op::DelIdx { .. } => "DelIdx",
             Op::Seq { .. } => "Seq",
             Op::Rotate => "Rotate",
             Op::Flush { .. } => "Flush",
@@ -172,6 +179,9 @@ impl Op {
             Op::DelF { k } => format!("DF({k})"),
             Op::FlushLeveled { w: x, p } => format!("FL{p}({})", w(x)),
             Op::IngestAbandon { items } => format!("IngAbandon{items:?}"),
+            Op::PutIdx { k } => format!("P#{k}"),
+            Op::DelIdx { k } => format!("D#{k}"),
+            Op::Seq { ops } if ops.len() > 8 => format!("[{};..{} ops..;{}]", ops[0].short(), ops.len() - 2, ops[ops.len() - 1].short()),
             Op::Seq { ops } => format!("[{}]", ops.iter().map(Op::short).collect::<Vec<_>>().join(";")),
             Op::Rotate => "R".into(),
             Op::Flush { w: x } => format!("Fa({})", w(x)),
